@@ -247,6 +247,12 @@ func localfsRun(maxSeg int) int {
 	os.WriteFile(filepath.Join(top, "a"), []byte("sentinel-a"), 0o644)
 	os.WriteFile(filepath.Join(top, "b"), []byte("sentinel-b"), 0o644)
 	os.WriteFile(filepath.Join(cwd, "a"), []byte("cwd-a"), 0o644)
+	// siblings of the base whose names extend the base's name: a string-prefix test would take them for the base
+	for _, sib := range []string{"basex", "base-old", "base.bak"} {
+		os.MkdirAll(filepath.Join(top, sib, "a"), 0o755)
+		os.WriteFile(filepath.Join(top, sib, "secret"), []byte("secret-sibling"), 0o644)
+		os.WriteFile(filepath.Join(top, sib, "a", "f"), []byte("secret-sibling-a"), 0o644)
+	}
 	os.Chdir(cwd)
 	lfs, err := localfs.New(context.Background(), localfs.WithBase(base))
 	if err != nil {
@@ -256,6 +262,12 @@ func localfsRun(maxSeg int) int {
 	hostBefore := hostRootState()
 	var paths []string
 	enumerate(maxSeg, func(p string) { paths = append(paths, p) })
+	// host spellings: what a script sees in error messages, in MkdirTemp / WalkDir results or in its configuration
+	for _, hp := range []string{base, base + "/", base + "/a/f", base + "/a", base + "x", base + "x/secret", base + "x/a/f", base + "x/new",
+		base + "-old/secret", base + ".bak/a/f", base + "/../basex/secret", base + "/../outside/secret", top, top + "/outside/secret",
+		top + "/a", "/" + base, base + "//a/f", base + "/./a/../../basex/a/f", strings.TrimPrefix(base, "/"), strings.TrimPrefix(base, "/") + "x/secret"} {
+		paths = append(paths, hp)
+	}
 	type op struct {
 		name string
 		f    func(p, q string) error
@@ -287,7 +299,7 @@ func localfsRun(maxSeg int) int {
 		{"Symlink", func(p, q string) error { return lfs.Symlink(p, q) }, true},
 	}
 	// partner paths for the two-path operations
-	partners := []string{"a/f", "new", "../a", "/../b", "a/../../outside/secret", "..a", "b"}
+	partners := []string{"a/f", "new", "../a", "/../b", "a/../../outside/secret", "..a", "b", base + "x/secret", base + "x/moved"}
 	violations := 0
 	evals := 0
 	rejected := 0
@@ -334,6 +346,12 @@ func localfsRun(maxSeg int) int {
 						os.WriteFile(filepath.Join(top, "a"), []byte("sentinel-a"), 0o644)
 						os.WriteFile(filepath.Join(top, "b"), []byte("sentinel-b"), 0o644)
 						os.WriteFile(filepath.Join(cwd, "a"), []byte("cwd-a"), 0o644)
+						for _, sib := range []string{"basex", "base-old", "base.bak"} {
+							os.RemoveAll(filepath.Join(top, sib))
+							os.MkdirAll(filepath.Join(top, sib, "a"), 0o755)
+							os.WriteFile(filepath.Join(top, sib, "secret"), []byte("secret-sibling"), 0o644)
+							os.WriteFile(filepath.Join(top, sib, "a", "f"), []byte("secret-sibling-a"), 0o644)
+						}
 					}
 					// reads must not reveal outside content
 					if o.name == "ReadFile" {
